@@ -106,7 +106,7 @@ CHECKS['C01'] = {
     'assumptions': ['zero-length raw items are built only through AddFlat(ByteBuffer) (AddData documents that 0 bytes are rejected)'],
     'targets': [
         {'name': 'c01_roundtrip', 'src': ['harness/C01_roundtrip.cpp'], 'quick_n': 1000000, 'thorough_n': 8000000, 'maxlen': 600, 'min_nontrivial': 100000,
-         'class_floors': {'case_field_crossed_inline_array_boundary': 50000, 'case_nesting_ge_2': 5000, 'case_with_pointer_or_tag_field': 3000, 'case_equality_asserted': 50000, 'case_with_nan': 20000, 'case_with_a_field_emptied_through_a_sharing_message': 5000, 'case_copy_kept_while_the_original_was_modified': 8000, 'case_copy_modified_original_rechecked': 10000, 'case_field_swapped_with_another_message': 1500}},
+         'class_floors': {'case_field_crossed_inline_array_boundary': 50000, 'case_nesting_ge_2': 5000, 'case_with_pointer_or_tag_field': 3000, 'case_equality_asserted': 50000, 'case_with_nan': 20000, 'case_with_a_field_emptied_through_a_sharing_message': 5000, 'case_copy_kept_while_the_original_was_modified': 8000, 'case_copy_modified_original_rechecked': 10000, 'case_field_swapped_with_another_message': 1500, 'case_zero_length_raw_item_from_a_buffer_emptied_in_place': 5000}},
     ],
 }
 
@@ -418,7 +418,7 @@ CHECKS['C06'] = {
 
 # What the fourth and fifth seeding rounds added to the generators and oracles (DESIGN.md I.3 and I.6), appended to the level texts above.
 _LATER = {
-    'C01': 'Also: copies of the Message under construction (copy constructor, assignment over a Message in use, pooled copy) are kept and must still flatten to the bytes they had when taken, whatever is done to the original afterwards; copies are modified (items removed / added / replaced, fields removed, emptied, written through GetPointerToNormalizedFieldData) and the original must keep its bytes; fields are swapped with another Message and back (SwapName), contents swapped out and moved back (SwapContents, move assignment); the checksum of a Message equals that of its parsed copy.',
+    'C01': 'Also: copies of the Message under construction (copy constructor, assignment over a Message in use, pooled copy) are kept and must still flatten to the bytes they had when taken, whatever is done to the original afterwards; copies are modified (items removed / added / replaced, fields removed, emptied, written through GetPointerToNormalizedFieldData) and the original must keep its bytes; fields are swapped with another Message and back (SwapName), contents swapped out and moved back (SwapContents, move assignment); the checksum of a Message equals that of its parsed copy; zero-length raw items are built from an empty ByteBuffer and from one that was filled and emptied in place (findings F40, F41).',
     'C02': 'Also (gateways target): a packet tunnel with a small maximum incoming Message size fed, by one sender, Messages below and above the limit (none above may be delivered, whatever preceded it); binary frames larger than the 2048-byte scratch buffer whose last field claims 1-8 bytes more than the frame holds (exactly-sized heap receive buffer: an over-read is an ASan report); tunnel receivers whose MTU is fitted to the last datagram.',
     'C03': 'Also: the templating gateway in each of the 10 encodings, with the encoding changed in mid-stream in half of the cases (finding F39); the micro C sender keeps preparing Messages while earlier ones are still partly in its (small) output buffer, so that the buffer is compacted with output pending.',
     'C04': 'Also: SETDATA with the supercede flag (earlier queued updates of the same node are dropped in favour of the new one).',
